@@ -383,6 +383,12 @@ func c05r2(p *Program, r *Report) {
 					// one level of call-site preconditions: the size is (a field of) a parameter and every caller
 					// has excluded negative values before the call
 					nn = nonNegAtCallSites(p, fi, sz)
+					// a local copy of such a value (count := meta.colCount)
+					if id, isId := ast.Unparen(sz).(*ast.Ident); !nn && isId {
+						if def := localDef(info, fi, id); def != nil && isFieldPath(def) {
+							nn = nonNegAtCallSites(p, fi, def)
+						}
+					}
 				}
 				ub, hasUB := d.constUpper(sz)
 				bounded := hasUB && ub <= maxDecodeAlloc
